@@ -1552,6 +1552,21 @@ func putdomtext(w io.Writer, a []byte) {
 	}
 }
 
+// write a server name (the ns, mx or srv field). UnmarshalText takes a name
+// without a dot for a prefix and expands it (x -> x.ns.<dom>), so a fully
+// qualified name of less than two labels keeps a trailing dot
+func putservertext(w io.Writer, a []byte) {
+	b := new(bytes.Buffer)
+	putdomtext(b, a)
+	if !bytes.Contains(b.Bytes(), []byte(".")) {
+		b.WriteString(".")
+	}
+	_, err := w.Write(b.Bytes())
+	if err != nil {
+		glog.Errorf("%v", err)
+	}
+}
+
 // write a two-byte location ID
 func putloc(w io.Writer, lo Loc) {
 	var err error
